@@ -19,7 +19,7 @@ pub fn prop() -> Prop {
         max_len: 600,
         quick: 150_000,
         thorough: 2_000_000,
-        rule: "choice sequence -> envelope (nodes under wrapped under assertions, repeated predicates, obscured assertions / predicates / objects, assertions carrying assertions, node-as-subject) x both walk modes x level limit 0..depth+2 x predicates {present once, several times, absent, present but elided} x extraction types {String, u8..u64, i8..i64, f32, f64, bool, ByteString}. oracle: an independent recursion over case() gives the expected visit list [(digest, level, edge, parent)]; walk(false) must produce exactly it and thread the visitor's return value to exactly the children; walk(true) must produce the same sequence without node elements, at the documented tree-view levels, edge None; elements_count, digests(l) for every l, deep_/shallow_digests, subject(), assertions(), is_*/as_* accessors equal the model's; assertions_with_predicate / assertion_with_ / object_for_ / optional_* / objects_for_ return exactly the elements whose (subject-)assertion's predicate digest equals digest(p), or the none / ambiguous errors; typed extraction returns Ok(v) only if the harness's own dCBOR encoding of v is the stored leaf, otherwise Err. non-trivial: depth >= 2 and >= 1 lookup with != 1 match or through an elided predicate; distinct by FNV-64 of the encoding; both extraction routes (extract_* via TryFrom<CBOR>, try_as / try_object_for_predicate / try_optional_ / try_objects_ via TryFrom<Envelope>); structural extraction types Envelope / KnownValue / Digest / Assertion judged against what the wrapped / known-value / elided / assertion subject stores; one case in ten under 33-40 wrappers; extract_objects_for_predicate: all matching objects or an error",
+        rule: "choice sequence -> envelope (nodes under wrapped under assertions, repeated predicates, obscured assertions / predicates / objects, assertions carrying assertions, node-as-subject) x both walk modes x level limit 0..depth+2 x predicates {present once, several times, absent, present but elided} x extraction types {String, u8..u64, i8..i64, f32, f64, bool, ByteString}. oracle: an independent recursion over case() gives the expected visit list [(digest, level, edge, parent)]; walk(false) must produce exactly it and thread the visitor's return value to exactly the children; walk(true) must produce the same sequence without node elements, at the documented tree-view levels, edge None; elements_count, digests(l) for every l, deep_/shallow_digests, subject(), assertions(), is_*/as_* accessors equal the model's; assertions_with_predicate / assertion_with_ / object_for_ / optional_* / objects_for_ return exactly the elements whose (subject-)assertion's predicate digest equals digest(p), or the none / ambiguous errors; typed extraction returns Ok(v) only if the harness's own dCBOR encoding of v is the stored leaf, otherwise Err. non-trivial: depth >= 2 and >= 1 lookup with != 1 match or through an elided predicate; distinct by FNV-64 of the encoding; both extraction routes (extract_* via TryFrom<CBOR>, try_as / try_object_for_predicate / try_optional_ / try_objects_ via TryFrom<Envelope>); structural extraction types Envelope / KnownValue / Digest / Assertion judged against what the wrapped / known-value / elided / assertion subject stores; one case in ten under 33-40 wrappers; extract_objects_for_predicate: all matching objects or an error; a second walk with a visitor that returns None at every third element (both modes)",
         assumptions: &["tree-mode levels: a node is transparent (subject at the node's level, its assertions one deeper), children of wrapped / assertion one deeper — as pinned by the golden tree_format(true) strings of the test-suite"],
         extra: None,
     }
